@@ -1,7 +1,9 @@
 import Grexv.Model.Format
+import Grexv.Lemmas.AsciiPipeline
+import Grexv.Lemmas.Stages
 
 /-!
-# C11 — non-ASCII escaping is complete, well-formed and reversible (character level)
+# C11 — non-ASCII escaping is complete, well-formed and reversible (character level and whole pattern)
 
 `Gen.surrogateLo/Hi/HiInclusive` are generated from the range expression in `Grapheme::escape`.
 -/
@@ -10,52 +12,9 @@ set_option linter.unusedVariables false
 namespace Grexv.Props.C11
 open Grexv
 
-theorem hexDigit_ascii (d : Nat) (h : d < 16) : hexDigit d < 128 := by
-  unfold hexDigit; split <;> omega
-
-theorem toHexAux_ascii (fuel n : Nat) (acc : Str) (hacc : ∀ x ∈ acc, x < 128) :
-    ∀ x ∈ toHexAux fuel n acc, x < 128 := by
-  induction fuel generalizing n acc with
-  | zero => simpa [toHexAux] using hacc
-  | succ f ih =>
-    unfold toHexAux
-    split
-    · intro x hx
-      simp at hx
-      rcases hx with rfl | hx
-      · exact hexDigit_ascii _ (by omega)
-      · exact hacc x hx
-    · apply ih
-      intro x hx
-      simp at hx
-      rcases hx with rfl | hx
-      · exact hexDigit_ascii _ (Nat.mod_lt _ (by omega))
-      · exact hacc x hx
-
-theorem toHex_ascii (n : Nat) : ∀ x ∈ toHex n, x < 128 := toHexAux_ascii _ _ _ (by simp)
-
 /-- **C11 (ASCII)** whatever the code point and whatever the surrogate option, the escaped form
 consists of ASCII characters only -/
-theorem escapeChar_ascii (c : Nat) (sur : Bool) : ∀ x ∈ Expr.escapeChar c sur, x < 128 := by
-  unfold Expr.escapeChar
-  split
-  · intro x hx; simp at hx; omega
-  · split
-    · intro x hx
-      simp only [List.mem_append, List.mem_cons, List.mem_nil_iff, or_false] at hx
-      rcases hx with ((((hx | hx) | hx) | hx) | hx) | hx
-      · rcases hx with rfl | rfl | rfl <;> omega
-      · exact toHex_ascii _ x hx
-      · omega
-      · rcases hx with rfl | rfl | rfl <;> omega
-      · exact toHex_ascii _ x hx
-      · omega
-    · intro x hx
-      simp only [List.mem_append, List.mem_cons, List.mem_nil_iff, or_false] at hx
-      rcases hx with (hx | hx) | hx
-      · rcases hx with rfl | rfl | rfl <;> omega
-      · exact toHex_ascii _ x hx
-      · omega
+theorem escapeChar_ascii (c : Nat) (sur : Bool) : ∀ x ∈ Expr.escapeChar c sur, x < 128 := Grexv.escapeChar_ascii c sur
 
 /-- **C11 (form)** a non-ASCII code point that is not converted to a pair is written `\u{hex}` -/
 theorem escapeChar_plain (c : Nat) (h : 128 ≤ c) :
@@ -104,6 +63,65 @@ theorem escapeGrapheme_ascii (cfg : Config) (hesc : cfg.esc = true) (chars : Lis
   simp at hx
   obtain ⟨c, _, hc⟩ := hx
   exact escapeChar_ascii c cfg.sur x hc
+
+/-! ## whole pattern -/
+
+/-- **C11 (printer, every setting)** with `-e`, for every expression whose class members are ASCII and every
+combination of the other settings (colours, verbose mode, capturing groups, anchors, counted repetitions),
+the text `Display for RegExp` writes consists of ASCII characters only -/
+theorem printed_text_ascii (cfg : Config) (hesc : cfg.esc = true) (e : Expr) (h : e.ClsAscii) :
+    ∀ x ∈ fmtRegExp cfg e, x < 128 := fmtRegExp_ascii cfg hesc e h
+
+/-- why class members are ASCII under `-e`: `union` merges two expressions into a class only if each counts as one
+character after escaping, and an escaped non-ASCII character is at least two characters long -/
+theorem merged_members_ascii (cfg : Config) (hesc : cfg.esc = true) (e : Expr) (h : e.ClsAscii)
+    (hs : e.isSingleCodepoint cfg = true) : ∀ x ∈ Expr.extractCharSet e, x < 128 :=
+  Expr.extractCharSet_ascii cfg hesc e h hs
+
+theorem trie_acyclic (cls : List Cluster) (hcls : ∀ cl ∈ cls, ∀ g ∈ cl, g.Simple) :
+    ∀ c w, Dfa.Path (Dfa.trie cls) c w c → w = [] := by
+  intro c w pth
+  have ht := (Dfa.trie_tree_alpha cls hcls).1
+  apply Classical.byContradiction
+  intro hw
+  have := Dfa.Path.lt_of_ne_nil (fun e he => (ht.lt e he).1) pth hw
+  omega
+
+/-- **C11 for the model, whole pattern, all inputs without `-r`** with `-e`, for every other setting, every list of
+test cases and every segmentation with non-empty pieces: whichever expression `RegExp::from` ends up keeping
+(the first candidate, the expression of the unminimised trie, or the plain alternation of the test cases), the
+returned text consists of ASCII characters only -/
+theorem output_ascii (cfg : Config) (hesc : cfg.esc = true) (hrep : cfg.rep = false) (env : Env) (ws : List Str) (st : Stages)
+    (h : regExpFrom cfg env ws = .ok st) (hseg : ∀ w ∈ st.sorted, ∀ p ∈ env.segOf w, p ≠ []) :
+    ∀ x ∈ fmtRegExp cfg st.finalAst, x < 128 := by
+  -- the three possible results
+  have hthree := from_final_three cfg env ws st h
+  obtain ⟨h1, h2, h3, h4, h5⟩ := from_stages_shape cfg env ws st h
+  have hof := clusters_ofStr cfg env st.sorted hrep hseg
+  rw [← h2] at hof
+  have hcls : ∀ cl ∈ st.clusters, ∀ g ∈ cl, g.Simple := by
+    intro cl hcl g hg
+    obtain ⟨s, _, rfl⟩ := hof cl hcl g hg
+    exact ofStr_simple s
+  apply fmtRegExp_ascii cfg hesc
+  rcases hthree with hf | hf | hf
+  · rw [hf]
+    obtain ⟨m, hm, _, hlab, hdfs, _, hacyc⟩ := min_struct st.clusters hcls (fun g => ∃ s, s ≠ [] ∧ g = Grapheme.ofStr s) hof
+    rw [← h3, h4] at hm
+    simp only [Option.some.injEq] at hm
+    subst hm
+    exact ofDfa_clsAscii cfg hesc _ hlab hdfs hacyc
+  · rw [hf, h3]
+    have ht := (Dfa.trie_tree_alpha st.clusters hcls).1
+    have hlab : (Dfa.trie st.clusters).PlainLabels :=
+      trie_labels (fun g => ∃ s, s ≠ [] ∧ g = Grapheme.ofStr s) st.clusters hcls hof
+    have hdfs := dfsOK_of_bounded (Dfa.trie st.clusters) (by rw [ht.init0]; exact ht.pos) (fun e he => (ht.lt e he).2)
+    exact ofDfa_clsAscii cfg hesc _ hlab hdfs (trie_acyclic st.clusters hcls)
+  · rw [hf]
+    apply Expr.clsAscii_newAlternation
+    intro e he
+    obtain ⟨c, _, rfl⟩ := List.mem_map.mp he
+    trivial
 
 /-! non-vacuity -/
 example : Expr.escapeChar 0x1F4A9 true = strOf "\\u{d83d}\\u{dca9}" := by decide
